@@ -106,6 +106,8 @@ char *__wrap_strdup(const char *s)
 	return p;
 }
 
+static int memrec_in_user(uintptr_t a);
+
 void __wrap_free(void *p)
 {
 	if (p == NULL)
@@ -123,6 +125,11 @@ void __wrap_free(void *p)
 		tr("\"e\":\"Free\",\"r\":%d}", b->id);
 		return;
 	}
+	if (arena && memrec_in_user((uintptr_t)p)) {
+		/* the library hands an object of the program to free() */
+		tr("\"e\":\"BadFree\",\"r\":0}");
+		return;
+	}
 	__real_free(p);
 }
 
@@ -131,6 +138,14 @@ struct ureg { uintptr_t a; size_t n; int kind, id, live; };
 #define MAXU 512
 static struct ureg U[MAXU];
 static int nu;
+
+static int memrec_in_user(uintptr_t a)
+{
+	for (int i = 0; i < nu; i++)
+		if (U[i].live && a >= U[i].a && a < U[i].a + U[i].n)
+			return 1;
+	return 0;
+}
 
 void memrec_user_add(void *p, size_t n, int kind, int id)
 {
